@@ -154,6 +154,9 @@ structure Universe where
   inTree : Bool
   /-- classes of the program; ids 0 and 1 are reserved, see `infoOf` -/
   userInfo : Nat → Option ClsInfo
+  /-- does the constructor call that builds the instance with this label raise (constructors are
+  the program's; the scenario scripts "the n-th call of class C raises") -/
+  ctorRaises : Nat → Bool := fun _ => false
 
 def clsOnUpdate : Nat := 0
 def clsCoroutine : Nat := 1
@@ -450,17 +453,17 @@ def createEntity (U : Universe) (w : World) (eid : Option EntId) (comps : List I
 def instOf (d : Item) (c : Nat) : Inst := ⟨.item d.label, c, d.args, d.kwargs⟩
 
 /-- `processor_dict['type'](*args, **kwargs)` : calling anything but a class of the scenario is
-outside the model -/
-def construct (d : Item) : Except Exc Inst :=
+outside the model; the constructor may raise, which ends the load -/
+def construct (U : Universe) (d : Item) : Except Exc Inst :=
   match d.type with
-  | .cls c => .ok (instOf d c)
+  | .cls c => if U.ctorRaises d.label then .error "CtorError" else .ok (instOf d c)
   | _ => .error "TypeError"
 
 /-- model/world.py:98-101 -/
 def populateProcs (U : Universe) : World → List Item → Except Exc World
   | w, [] => .ok w
   | w, d :: ds =>
-    match construct d with
+    match construct U d with
     | .error e => .error e
     | .ok p =>
       -- `assert isinstance(processor, Processor)` in `add_processor`
@@ -470,7 +473,7 @@ def populateProcs (U : Universe) : World → List Item → Except Exc World
 def populateEnts (U : Universe) : World → List (Option EntId × List Item) → Except Exc World
   | w, [] => .ok w
   | w, (eid, cds) :: es =>
-    match mapE construct cds with
+    match mapE (construct U) cds with
     | .error e => .error e
     | .ok comps => populateEnts U (createEntity U w eid comps) es
 
@@ -508,6 +511,16 @@ def loadFile (U : Universe) (d : Desc) : Except Exc World :=
 /-- a `WorldHandle` whose only transform function calls `populate_world_from_dict` -/
 def loadDict (U : Universe) (d : Desc) : Except Exc World :=
   loadHandle (fun w => populate U w d)
+
+/-- `Handle.__call__` (model/tree.py:40-46) for a world handle: a cached world is returned as it
+is, otherwise `load()` runs and its result is cached; when `load()` raises nothing is cached. -/
+def callHandle (cache : Option World) (load : Except Exc World) : Option World × Except Exc World :=
+  match cache with
+  | some w => (some w, .ok w)
+  | none =>
+    match load with
+    | .ok w => (some w, .ok w)
+    | .error e => (none, .error e)
 
 /-- queue depletion of `dispatch_enabled = True` : events.py:133-139 (callbacks are passive, so
 the dispatcher stays enabled; an escaping exception leaves the rest of the queue pending) -/
@@ -685,6 +698,8 @@ inductive Step where
   | clear (h : Nat)
   /-- `parent_map[key] = <new handle h>` under the path of an existing handle -/
   | replace (path : Str) (h : Nat)
+  /-- `world_handle()` once more: the cached world if there is one, else a load -/
+  | call
   /-- `world_handle.clear(); world_handle()` -/
   | reload
   /-- a second `WorldFromFileHandle` for the same file, stored in the same tree, is loaded -/
@@ -698,6 +713,10 @@ structure TreeSt where
   cached : Dict Nat Nat := []
   /-- number of `load()` calls of a handle so far -/
   counts : Dict Nat Nat := []
+  /-- number of constructor calls of a class so far -/
+  ctorCounts : Dict Nat Nat := []
+  /-- `_cache` of the world handle (`none`: not cached) -/
+  worldCache : Option World := none
 deriving Inhabited
 
 structure Parsed where
@@ -710,6 +729,8 @@ structure Parsed where
   procs : List Item := []
   ents : List (Option EntId × List Item) := []
   rx : List Str := []
+  /-- `raise=`: the constructor calls (0-based, counted per class over the whole scenario) that raise -/
+  raises : Dict Nat (List Nat) := []
   steps : List Step := []
   nextLabel : Nat := 0
   bad : Bool := false
@@ -746,16 +767,18 @@ def parseLine (p : Parsed) (line : String) : Parsed :=
   | "cls" :: cid :: kind :: pr :: ev :: rest =>
     -- `base=<cid>` (the class statement names an earlier class as its base) is for the
     -- implementation side: nothing on the loader's path looks at subclasses (exact types only)
-    let baseOk := match rest with
-      | [] => true
-      | [b] => match (stripPfx "base=" b).bind String.toNat?, cid.toNat? with
+    let baseOk := rest.all (fun b => match stripPfx "base=" b, stripPfx "raise=" b with
+      | some b, _ => match b.toNat?, cid.toNat? with
         | some b, some c => b < c
         | _, _ => false
-      | _ => false
+      | none, some r => (natList? r).isSome
+      | none, none => false) && rest.length ≤ 2
+    let raiseSpec := (rest.findSome? (fun b => (stripPfx "raise=" b).bind natList?)).getD []
     match cid.toNat?, (stripPfx "prio=" pr).bind String.toInt?, (stripPfx "ev=" ev).bind parseEvents with
     | some c, some prio, some evs =>
       if c < 2 ∨ (kind ≠ "proc" ∧ kind ≠ "comp") ∨ !baseOk then { p with bad := true } else
-      { p with classes := Dict.set p.classes c { isProc := kind = "proc", events := evs, priority := prio } }
+      { p with classes := Dict.set p.classes c { isProc := kind = "proc", events := evs, priority := prio },
+               raises := Dict.set p.raises c raiseSpec }
     | _, _, _ => { p with bad := true }
   | ["module", m] =>
     match decTok m with
@@ -819,6 +842,7 @@ def parseLine (p : Parsed) (line : String) : Parsed :=
     match decTok path, h.toNat? with
     | some path, some h => { p with steps := p.steps ++ [.replace path h] }
     | _, _ => { p with bad := true }
+  | ["step", "call"] => { p with steps := p.steps ++ [.call] }
   | ["step", "reload"] => { p with steps := p.steps ++ [.reload] }
   | ["step", "load2"] => { p with steps := p.steps ++ [.load2] }
   | ["rx", s] =>
@@ -906,18 +930,44 @@ def showWorld (w : World) : List String :=
   w.entities.map (fun e => s!"ent {showEntId e.1} " ++ joinList (e.2.map (fun c => showInstRef c.2))) ++
   ((w.sorted ++ comps).filter (fun i => isItemLabel i.label)).map showInst
 
-/-- one load and the observation block it produces; the tree remembers what was loaded -/
-def runLoad (p : Parsed) (t : TreeSt) : List String × TreeSt :=
-  let U := p.universeAt t
+/-- which constructor call of this load raises (scripted per class and call number), and the call
+counters afterwards: instances are built in the order of the description, processors first; a
+raising call ends the load -/
+def planCtors (p : Parsed) : Dict Nat Nat → List Item → Option Nat × Dict Nat Nat
+  | counts, [] => (none, counts)
+  | counts, d :: ds =>
+    match d.type with
+    | .cls c =>
+      let k := (Dict.get? counts c).getD 0
+      let counts := Dict.set counts c (k + 1)
+      if ((Dict.get? p.raises c).getD []).contains k then (some d.label, counts) else planCtors p counts ds
+    | _ => (none, counts)
+
+/-- one load and the observation block it produces; the program state remembers what was loaded
+and how often constructors ran -/
+def runLoad (p : Parsed) (t : TreeSt) : List String × TreeSt × Except Exc World :=
+  let U0 := p.universeAt t
   let d : Desc := { processors := p.procs, entities := p.ents }
+  let built : Option Desc := match p.mode with
+    | .file => match transformDesc U0 d with
+      | .ok td => some td
+      | .error _ => none
+    | _ => some d
+  let plan : Option Nat × Dict Nat Nat := match built with
+    | some td => planCtors p t.ctorCounts
+        (td.processors ++ td.entities.flatMap (fun (e : Option EntId × List Item) => e.2))
+    | none => (none, t.ctorCounts)
+  let raising := plan.1
+  let ctorCounts := plan.2
+  let U := { U0 with ctorRaises := fun l => raising = some l }
   let res := match p.mode with
     | .file => loadFile U d
     | .dict => loadDict U d
     | .direct => populate U {} d
   let called := if p.mode = .file then (descLoads U d).eraseDups else []
-  let t' := t.call called
+  let t' := { t.call called with ctorCounts := ctorCounts }
   match res with
-  | .error e => ([s!"res raised {e}"], t')
+  | .error e => ([s!"res raised {e}"], t', res)
   | .ok w =>
     let pre := w.log.length
     let w2 := if p.mode = .direct then w else setEnabled U w true
@@ -927,23 +977,40 @@ def runLoad (p : Parsed) (t : TreeSt) : List String × TreeSt :=
       [s!"pre {pre}"] ++
       (if p.mode = .direct then [] else
         [match w2.failed with | some e => s!"res-enable raised {e}" | none => "res-enable ok"]) ++
-      (canonLog w2.log).map showEntry, t')
+      (canonLog w2.log).map showEntry, t', res)
+
+/-- `world_handle()` : `Handle.__call__` around one load -/
+def runCall (p : Parsed) (t : TreeSt) : List String × TreeSt :=
+  match t.worldCache with
+  | some _ => (["res same-world"], t)
+  | none =>
+    let (obs, t', res) := runLoad p t
+    (obs, { t' with worldCache := (callHandle t.worldCache res).1 })
 
 def runSteps (p : Parsed) : TreeSt → Nat → List Step → List String
   | _, _, [] => []
   | t, k, .clear h :: rest => runSteps p { t with cached := Dict.erase t.cached h } k rest
   | t, k, .replace path h :: rest => runSteps p { t with tree := Dict.set t.tree path (.handle h) } k rest
+  | t, k, .call :: rest =>
+    let (obs, t') := runCall p t
+    s!"load {k} call" :: obs ++ runSteps p t' (k + 1) rest
   | t, k, .reload :: rest =>
-    let (obs, t') := runLoad p t
+    let (obs, t') := runCall p { t with worldCache := none }
     s!"load {k} reload" :: obs ++ runSteps p t' (k + 1) rest
   | t, k, .load2 :: rest =>
-    let (obs, t') := runLoad p t
+    let (obs, t', _) := runLoad p t
     s!"load {k} load2" :: obs ++ runSteps p t' (k + 1) rest
+
+def stepOk (p : Parsed) : Step → Bool
+  | .call => p.mode ≠ .direct
+  | .reload => p.mode ≠ .direct
+  | _ => p.mode = .file && p.inTree
 
 def runScenario (lines : List String) : List String :=
   let p := lines.foldl parseLine {}
-  if p.bad || (!p.steps.isEmpty && !(p.mode = .file && p.inTree)) then ["bad-op"] else
-  let (obs, t) := runLoad p { tree := p.tree }
+  if p.bad || !p.steps.all (stepOk p) then ["bad-op"] else
+  let (obs, t) := if p.mode = .direct then (let r := runLoad p { tree := p.tree }; (r.1, r.2.1))
+    else runCall p { tree := p.tree }
   p.rx.map showRx ++ obs ++ runSteps p t 2 p.steps
 
 end Desper.Loader
